@@ -93,6 +93,22 @@ def judge(gen: macrogen.Generated, counters: Dict[str, Any]) -> List[Tuple[str, 
     return out
 
 
+def guarded_recursion(rng: Any) -> macrogen.Generated:
+    """the language's compile-time recursion idiom - a macro that calls itself under rep(condition, i) - a few hundred levels deep
+    (any depth below max_recursion_depth is legal), against the flat program it means. built directly, not by the generator."""
+    gen = macrogen.Generated()
+    gen.w = rng.choice([32, 64])
+    depth = rng.choice([120, 300, 600, 850])
+    two_files = rng.random() < 0.5
+    macro = 'def rec n @ here {\n  here:\n  ;here + n\n  rep(n > 0, i) rec n-1\n}\n'
+    main = f';\nrec {depth}\n'
+    gen.files = [('f1', macro), ('f2', main)] if two_files else [('f1', macro + main)]
+    gen.inlined = ';\n' + ''.join(f'R{k}:\n;R{k} + {depth - k}\n' for k in range(depth + 1))
+    gen.features = {'guarded-recursion-programs': 1, f'guarded-recursion-depth-{depth}': 1}
+    gen.calls_expanded = depth + 1
+    return gen
+
+
 def run_shard(spec: Dict[str, Any], journal: Any) -> Dict[str, Any]:
     rng = rng_for(spec['seed'], PROPERTY, spec['shard'])
     counters: Dict[str, Any] = {}
@@ -100,7 +116,7 @@ def run_shard(spec: Dict[str, Any], journal: Any) -> Dict[str, Any]:
     hashes: List[str] = []
     samples: List[Any] = []
     for index in range(spec['cases']):
-        gen = macrogen.generate(rng)
+        gen = macrogen.generate(rng) if index != 3 else guarded_recursion(rng)
         journal.note({'files': gen.files, 'inlined': gen.inlined, 'w': gen.w})
         found = judge(gen, counters)
         for f, n in gen.features.items():
